@@ -62,7 +62,7 @@ impl Prop for C01 {
         "exploration"
     }
     fn rule(&self) -> String {
-        "complete enumeration: 6 suites x all (n,t) up to the bound x 5 identifier kinds x {dealer, split, DKG} x EVERY signer subset |S|>=t x message alphabet; tiny field GF(q): every identifier set, every (key, coefficient vector), every nonce 4-tuple. A case is non-trivial when the session reached aggregate (every sign returned a share)".into()
+        "complete enumeration: 6 suites x all (n,t) up to the bound x 5 identifier kinds x {dealer, split, DKG} x EVERY signer subset |S|>=t x message alphabet; tiny field GF(q): every identifier set, every (key, coefficient vector), every nonce 4-tuple; plus per suite two LARGE sessions (130-260 signers out of 300; t = n = |S|), 5 000- and 70 000-byte messages, and sessions in which a signing share / nonce / signature share / signature scalar / key has a zero first or last encoded byte (forced by seed search). A case is non-trivial when the session reached aggregate (every sign returned a share)".into()
     }
     fn assumptions(&self) -> Vec<String> {
         vec![
